@@ -316,3 +316,14 @@ Example C06_nonvacuous :
   visit stop3 s LEVEL false = ([2; 3; 4; 5], VReturn (Some 9%Z)) /\
   visit stop3 s ZIGZAG false = ([], VRaise E_NOTIMPL).
 Proof. exact nonvacuous_example. Qed.
+
+Example C06_nonvacuous_stateful :
+  let i := I 0 0 0 true [] (DInt 0) None [] in
+  let s := T 1 i [T 2 i [T 4 i []; T 5 i []]; T 3 i [T 6 i [T 7 i []]]] in
+  let cb : cbT := fun calls _ => match length calls with 0 => RetSkipInst | 2 => RaiseStopInst (Some 5%Z) | _ => RetNone end in
+  never_halts (mute cb) /\ mutes cb (mute cb) /\
+  visit (mute cb) s PRE false = ([2; 3; 6; 7], VReturn None) /\
+  skipped_dyn (mute cb) s [2; 3; 6; 7] 4 /\
+  visit cb s PRE false = ([2; 3; 6], VReturn (Some 5%Z)) /\
+  halted cb [] [2; 3; 6] (HStop (Some 5%Z)).
+Proof. exact nonvacuous_stateful. Qed.
